@@ -162,14 +162,18 @@ def scen_c10(gaps, dur, mbs, mcb, bt=10, mutate=None):
         devs.append('not-fifo' if sorted(order) == sorted(arr) else 'items-lost-or-duplicated')
         return devs
     if mutate is not None:
-        # with a limit change only the size bound in force is judged precisely
+        # with a limit change only the size bound in force is judged: a batch handed over after the change may hold the members
+        # collected before it plus the one read that was already in flight, otherwise at most the new limit
         t_mut = mutate[0]
         for b in batches:
             first = st.arrive[int(b['keys'][0])]
             if b['start'] < t_mut and len(b['keys']) > mbs:
                 devs.append('batch-larger-than-max_batch_size')
-            if first > t_mut and len(b['keys']) > mutate[1]:
-                devs.append('batch-larger-than-max_batch_size')
+            if b['start'] > t_mut:
+                k0 = len([k for k in b['keys'] if st.arrive[int(k)] <= t_mut])
+                allowed = mutate[1] if k0 == 0 else max(mutate[1], k0 + 1)
+                if len(b['keys']) > allowed:
+                    devs.append('batch-larger-than-max_batch_size-after-limit-was-lowered')
         return devs
     at = {str(i): st.arrive[i] for i in range(n)}
     where = {k: bi for bi, b in enumerate(batches) for k in b['keys']}
@@ -777,6 +781,11 @@ def c10_cells(tier):
                             pre=['len(gaps) == 3 and gaps[0] == 0 and all(0 <= g <= 12 for g in gaps)', pre],
                             body='H.scen_c10(gaps, dur, 2, 2, 10, (at, %d))' % new, tier=q if isq else 'thorough',
                             timeout=300 if isq else 1200, family='c10'))
+    # limit lowered from 3 to 1 while a batch is being collected
+    for sfx, pre in product_pre([parts('at', [(0, 4), (5, 9)])]):
+        out.append(Cell(name='c10_mutate_n3_from3_new1_p%s' % sfx, sig='gaps: List[int], dur: int, at: int',
+                        pre=['len(gaps) == 3 and gaps[0] == 0 and all(0 <= g <= 9 for g in gaps) and 0 <= dur <= 3', pre],
+                        body='H.scen_c10(gaps, dur, 3, 2, 10, (at, 1))', tier=q, timeout=300, family='c10', weight=3))
     out.append(Cell(name='twin_c10_slot_wait', sig='gaps: List[int], dur: int',
                     pre=['len(gaps) == 2 and gaps[0] == 0 and 0 <= gaps[1] <= 25 and 0 <= dur <= 30'],
                     body='H.twin_c10(gaps, dur)', expect='refute', timeout=90, family='c10'))
